@@ -1844,6 +1844,18 @@ class StateEngine(object):
             """
 
             """
+            This function runs from a timeout, so check again that the Map or
+            Parallel Branch that the event belongs to hasn't been terminated
+            in the meantime, otherwise a terminated Branch would carry on.
+            """
+            if self.branch_has_terminated(
+                state_type, context, id,
+                ASL.get("TimeoutSeconds", self.execution_ttl)
+            ):
+                return
+
+
+            """
             It's important for the on_response function to be nested as we want
             the event, state and id to be wrapped in its closure, to be used when
             the service integrated to the Task *actually* returns its result.
@@ -2603,6 +2615,18 @@ class StateEngine(object):
             The Parallel state passes its input (potentially as filtered by the
             “InputPath” field) as the input to each branch’s “StartAt” state.
             """
+
+            """
+            This function runs from a timeout, so check again that the Map or
+            Parallel Branch that the event belongs to hasn't been terminated
+            in the meantime, otherwise a terminated Branch would carry on.
+            """
+            if self.branch_has_terminated(
+                state_type, context, id,
+                ASL.get("TimeoutSeconds", self.execution_ttl)
+            ):
+                return
+
             try:
                 input = apply_path(data, context, state.get("InputPath", "$"))
 
@@ -2760,6 +2784,18 @@ class StateEngine(object):
 
             The “InputPath” field operates as usual, selecting part of the raw input .
             """
+
+            """
+            This function runs from a timeout, so check again that the Map or
+            Parallel Branch that the event belongs to hasn't been terminated
+            in the meantime, otherwise a terminated Branch would carry on.
+            """
+            if self.branch_has_terminated(
+                state_type, context, id,
+                ASL.get("TimeoutSeconds", self.execution_ttl)
+            ):
+                return
+
             try:
                 input = apply_path(data, context, state.get("InputPath", "$"))
 
